@@ -8,12 +8,16 @@
        returned eigenvalue is the (generalised) Rayleigh quotient of the returned eigentensor.
        The proof goes through the closed form of the right environments (C07_right_stack).
      - best-so-far bookkeeping: appending a sweep never moves the reported value away from the target.
-   NOT proved (model + oracle-tape correspondence + side check): <= lambda_max, fixed point, exactness
-   at maximal ranks, deflation = explicit shift (all need the left-environment closed form / the
-   Courant-Fischer argument), convergence of the inverse power iteration. *)
+     - deflation = explicit shift: for any frame P, operator A, tensor p and shift s,
+       P^H (A + s p p^H) P = P^H A P + s (P^H p)(P^H p)^H; with the frame identities of C07 (micro_op = P^H A P, and the
+       projected deflation tensor the code builds from its `previous` stacks is P^H p) the micro matrix with deflation is
+       the micro matrix of the explicitly shifted operator, at every position and for every number of deflation tensors
+       (the statement is additive in p).
+   NOT proved (model + oracle-tape correspondence + side check): <= lambda_max and exactness at maximal ranks
+   (Courant-Fischer), the fixed-point clause, convergence of the inverse power iteration. *)
 From Coq Require Import ZArith List Lia Arith.
 Import ListNotations.
-Require Import Ring Sums Matrix Core Chain Sweep SweepProof TensordotProof Env EnvProof EvpProof.
+Require Import Ring Sums Matrix Core Chain Sweep SweepProof TensordotProof Env EnvProof EvpProof DeflationProof.
 Open Scope cr_scope.
 
 Theorem C08_ritz_consistent (R : cring) (A0 G0 : core R) (Xs As Gs : list (core R)) m (yv : nat -> R) (lam : R) :
@@ -44,3 +48,10 @@ Example ex_ritz_hyp : forall row, (row < 1 * 2 * 1)%nat ->
   sum (1 * 2 * 1) (fun col => snd (micro_op_als (@one3 ZIring) (rstack [] []) exA8 1 1) row col * exY8 col) =
   ((3, 0)%Z : ZIring) * sum (1 * 2 * 1) (fun col => snd (micro_op_als (@one3 ZIring) (rstack [] []) exI8 1 1) row col * exY8 col).
 Proof. intros row H. destruct row as [|[|row]]; try (simpl in H; lia); vm_compute; reflexivity. Qed.
+
+Theorem C08_deflation_is_shift (R : cring) (N K : nat) (A P : M R) (p : nat -> R) (s : R) i j :
+  let t := fun k => sum N (fun x => cconj R (P x k) * p x) in
+  sum N (fun x => sum N (fun y => cconj R (P x i) * (A x y + s * (p x * cconj R (p y))) * P y j)) =
+  sum N (fun x => sum N (fun y => cconj R (P x i) * A x y * P y j)) + s * (t i * cconj R (t j)).
+Proof. exact (deflation_is_shift N K A P p s i j). Qed.
+Print Assumptions C08_deflation_is_shift.
